@@ -296,6 +296,13 @@ def explore(body, tracked=None, summaries=None, max_states=20000, on_call=None):
                 if rv['k'] == 'use' and is_const(rv['op']) and const_value(rv['op']) is not None \
                         and len(body.defs().get(s['lhs']['l'], [])) > 1:
                     env[ck] = int(const_value(rv['op'])) if not isinstance(const_value(rv['op']), float) else None
+                elif rv['k'] == 'use' and is_place(rv['op']) and not rv['op']['pl']['p'] \
+                        and env.get(('c', rv['op']['pl']['l'])) is not None:
+                    # a copy of such a temporary (e.g. the result of a spliced-in `matches!` helper)
+                    env[ck] = env[('c', rv['op']['pl']['l'])]
+                elif rv['k'] == 'un' and rv.get('op') == 'Not' and is_place(rv['a']) and not rv['a']['pl']['p'] \
+                        and env.get(('c', rv['a']['pl']['l'])) in (0, 1):
+                    env[ck] = 1 - env[('c', rv['a']['pl']['l'])]
                 elif ck in env:
                     del env[ck]
         t = blk['term']
@@ -425,3 +432,49 @@ def origin_def(body, op, depth=8):
             continue
         return ('rv', d[1], rv), pl['l']
     return None, None
+
+
+def parse_term(d):
+    """Parse a description string `Name(arg, arg, ...)` -> (name, [arg strings]); a string without a top-level
+    argument list gives (d, None).  Brackets are balanced over () [] <>-free text (generic arguments of paths contain
+    `<..>` with commas, which are kept inside the name)."""
+    d = d.strip()
+    if not d.endswith(')'):
+        return d, None
+    # find the '(' matching the final ')'
+    depth = 0
+    start = None
+    for i in range(len(d) - 1, -1, -1):
+        c = d[i]
+        if c == ')':
+            depth += 1
+        elif c == '(':
+            depth -= 1
+            if depth == 0:
+                start = i
+                break
+    if start is None:
+        return d, None
+    name = d[:start]
+    inner = d[start + 1:-1]
+    args = []
+    depth = 0
+    ang = 0
+    cur = ''
+    for c in inner:
+        if c in '([':
+            depth += 1
+        elif c in ')]':
+            depth -= 1
+        elif c == '<':
+            ang += 1
+        elif c == '>' and ang > 0:
+            ang -= 1
+        if c == ',' and depth == 0 and ang == 0:
+            args.append(cur.strip())
+            cur = ''
+        else:
+            cur += c
+    if cur.strip():
+        args.append(cur.strip())
+    return name, args
